@@ -86,6 +86,8 @@ inductive Err where
   | fuel      -- RecursionError
   | notImpl   -- NotImplementedError (`Transformable._transform_inplace`)
   | unknown   -- resolved implementation is not one of the transcribed ones
+  | value     -- ValueError (`range(0, n, 0)`, `np.vstack([])`: `apply(x, batch_size <= 0)`)
+  | index     -- IndexError (`x[:, dims]` with an index outside `[-n_dims, n_dims)` or a mask of the wrong length)
 deriving DecidableEq, Repr, Inhabited
 
 /-! ### value level -/
@@ -357,6 +359,17 @@ def landmarksInplace (d : Dispatch) (rec : Heap → Val → Except Err Heap) (h 
     | some .Transformable => .error .notImpl
     | _ => .error .attr
 
+/-- `return self._transform_self_inplace(transform)`: the method is looked up on the class of the object (as it
+is when the call is made: after the landmarks were transformed) -/
+def selfStage (d : Dispatch) (f : Arr → Arr) (h1 : Heap) (a : Nat) : Except Err Heap :=
+  match h1[a]? with
+  | some (.obj c _) =>
+    match supSelf d c with
+    | some .PointCloud => selfInplace f h1 a
+    | some .Shape => .ok h1
+    | _ => .error .attr
+  | _ => .error .attr
+
 /-- `x._transform_inplace(transform)` on heap `h` -/
 def inplace (d : Dispatch) (f : Arr → Arr) : Nat → Heap → Val → Except Err Heap
   | 0, _, _ => .error .fuel
@@ -371,10 +384,7 @@ def inplace (d : Dispatch) (f : Arr → Arr) : Nat → Heap → Val → Except E
         | .error e => .error e
         | .ok h1 =>
           -- return self._transform_self_inplace(transform)
-          match supSelf d c with
-          | some .PointCloud => selfInplace f h1 a
-          | some .Shape => .ok h1
-          | _ => .error .attr
+          selfStage d f h1 a
       | some .LandmarkManager =>
         match fs.lookup "_landmark_groups" with
         | some (.ref g) =>
